@@ -2,6 +2,7 @@ import ComposeVerif.Ops.Common
 import ComposeVerif.Model.Interp
 import ComposeVerif.Spec.Interp
 import ComposeVerif.Model.InterpCustom
+import ComposeVerif.Spec.InterpTree
 import ComposeVerif.Gen.Tables
 /-! line-protocol ops for C08: `interpolate` (model of interpolation.Interpolate with the regenerated cast
 table), `c08casters` (the integer / boolean casters alone), `c08escape` (the `$`→`$$` rewriting of the spec) -/
@@ -47,6 +48,27 @@ def castersOp : Handler := fun args =>
     ("devicecount", match decodeDeviceCount s with | some i => Json.str (ToString.toString i) | none => Json.null),
     ("bytes", Json.arr #[Json.str (unitBytesClass s).1, Json.str (unitBytesClass s).2])]
 
-def handlers : List (String × Handler) := [("interpolate", interpolateOp), ("c08casters", castersOp)]
+/-- the document with nothing substituted (`Spec/InterpTree.lean: castDocument`) and the `$`→`$$` rewriting of the spec:
+    `{"tree": T(map), "f64": {text: repr}, "f32": {…}}` →
+    `{"ok": T}` | `{"errs": [the cast error of every string leaf], "first": the list-order one}`, plus `"escaped": T` -/
+def castDocOp : Handler := fun args =>
+  match Val.ofJson (getObj args "tree") with
+  | .ok (.map kvs) =>
+    let c := cfgOf args
+    let esc := Val.toJson (.map (escapeKVs kvs))
+    match castDocument c kvs with
+    | .ok kvs' => Json.mkObj [("ok", Val.toJson (.map kvs')), ("escaped", esc)]
+    | .err e =>
+      let all := (leavesKVs TPath.root kvs).filterMap (fun qs =>
+        match castOnly c qs.1 qs.2 with
+        | .err e' => some (errJson e')
+        | _ => none)
+      Json.mkObj [("errs", Json.arr all.toArray), ("first", errJson e), ("escaped", esc)]
+    | .panic s => Json.mkObj [("panic", s), ("escaped", esc)]
+  | .ok _ => Json.mkObj [("bad", "tree is not a mapping")]
+  | .error e => Json.mkObj [("bad", e)]
+
+def handlers : List (String × Handler) :=
+  [("interpolate", interpolateOp), ("c08casters", castersOp), ("c08castdoc", castDocOp)]
 
 end CV.Ops.C08
